@@ -115,6 +115,14 @@ def analyse(unit, g, res):
             if label:
                 break
         pl = prim[0]['line_start'] if prim else 0
+        if label is None and kind.startswith('invariant') and prim:
+            # unlabelled loop invariant: name it by the clause text (stable under template line shifts)
+            import hashlib
+            txt = ' '.join(t.get('text', '').strip() for t in prim[0].get('text', []))
+            for s2 in spans:
+                if not s2.get('is_primary') and s2.get('label', '') and 'failed this invariant' in s2.get('label', ''):
+                    txt = ' '.join(t.get('text', '').strip() for t in s2.get('text', []))
+            label = 'invariant#' + hashlib.sha1(re.sub(r'\s+', ' ', txt).encode()).hexdigest()[:8]
         if label is None:
             # failing obligation sits in code (overflow / assert in extracted text / call-site precondition
             # without label): name it by kind and source position
